@@ -316,7 +316,7 @@ class WalletKey(object):
         >>> wk.address
         'bc1qukcgc3guzt0a27j7vdegtgwxsrv4khc4688ycs'
         >>> wk # doctest:+ELLIPSIS
-        <WalletKey(key_id=..., name=import_key, wif=zprvAWgYBBk7JR8GjN16pTBZUQvAgYBvsFM9g6Pu33oScnYHTEzphkbYKFHckMNncUg3kug1jAs1c3uNXiKWTYmHs5xPc5EQSwihPGvZwGiZeKD, path=m)>
+        <WalletKey(key_id=..., name=import_key, wif=zpub6jftahH18ngZwr5ZvUiZqYruEa2RGi513KKVqSD4B85GL3KyFHuns3c6bbeafAHF9wxCFZfh9GXo3R5Gujs87Zmt1DGhrQtbburtUxwuMYS, path=m)>
 
         :param name: New key name
         :type name: str
@@ -502,7 +502,10 @@ class WalletKey(object):
         self.session.close()
 
     def __repr__(self):
-        return "<WalletKey(key_id=%d, name=%s, wif=%s, path=%s)>" % (self.key_id, self.name, self.wif, self.path)
+        wif = self.wif
+        if self.is_private and self.key_type != 'multisig':
+            wif = HDKey.from_wif(wif, network=self.network_name, compressed=self.compressed).wif_public()
+        return "<WalletKey(key_id=%d, name=%s, wif=%s, path=%s)>" % (self.key_id, self.name, wif, self.path)
 
     @property
     def name(self):
